@@ -172,14 +172,15 @@ class SimpleClient:
         additional list elements.
         """
         while not self.input_buffer:
-            if not self.connected_event.wait(
-                    timeout=timeout):  # pragma: no cover
+            if not self.connected and self.connected_event.is_set():
+                # the connection has ended for good
+                raise DisconnectedError()
+            # (an event is also waited for during a reconnection: one that
+            # arrives then is not held back until the reconnection is over,
+            # and the final end of the connection sets this event too)
+            if not self.input_event.wait(timeout=timeout):
                 if self.input_buffer:
                     break
-                raise TimeoutError()
-            if not self.connected and not self.input_buffer:
-                raise DisconnectedError()
-            if not self.input_event.wait(timeout=timeout):
                 raise TimeoutError()
             self.input_event.clear()
         return self.input_buffer.pop(0)
